@@ -128,9 +128,21 @@ var validTempls = []string{
 	"package p\n\ntempl A() {\n\t<a href=\"/x\">b</a>\n}\n\ntempl B() {\n\t@A()\n}\n",
 }
 
+// brokenTempls are buffers as an editor restores them in the middle of an edit: the parser
+// rejects them.
+var brokenTempls = []string{
+	"package p\n\ntempl T() {\n\t<div>a\n}\n",
+	"package p\n\ntempl T() {\n\t<div\n",
+	"package p\n\ntempl T(s string) {\n\t<p>{ s </p>\n}\n",
+	"package p\n\ntempl T() {\n\t@\n}\n",
+}
+
 func genDoc(t *kernel.Tape) string {
 	if t.Chance(2, 5, "valid-templ") {
 		return validTempls[t.Choose(len(validTempls), "which")]
+	}
+	if t.Chance(1, 4, "broken-templ") {
+		return brokenTempls[t.Choose(len(brokenTempls), "which-broken")]
 	}
 	nl := t.Range(0, 6, "nlines")
 	var lines []string
